@@ -7,7 +7,8 @@ from specs import chem
 
 SEED_MOLS = ["CCOC", "CCOC(C)=O", "CC(=O)NC", "CCN(C)C", "CCSC", "c1ccccc1OC", "c1ccccc1C(=O)OCC", "CCOP(=O)(OC)OC", "CC(C)Br", "CCCl", "CC(=O)Oc1ccccc1",
              "CNC(=O)OC", "COC(=O)OC", "CCOCCO", "CC(O)CN", "CC(=O)SC", "CS(=O)(=O)OC", "c1ccncc1CO", "OCC(O)CO", "CCONC", "[2H]C([2H])([2H])CCCOC",
-             "[2H]c1ccccc1OC", "C[13CH2]OC", "CC[N+](C)(C)C", "CC(=O)[O-]", "COc1ccc(cc1)C(=O)NC", "CCOC(=O)CC(=O)OCC", "BrCCOC", "CCOB(O)O", "C[Si](C)(C)OC"]
+             "[2H]c1ccccc1OC", "C[13CH2]OC", "CC[N+](C)(C)C", "CC(=O)[O-]", "C[SiH2]CC", "CC[NH2+]CC", "C[PH]CC", "CC[SH](=O)=O", "Cc1cc[nH]c1", "C[NH2+]C",
+             "C[SiH3]", "CC[NH3+]", "Cn1ccc2ccccc12", "CCn1ccnc1", "CS(=O)(=O)NCC", "CS(=O)(=O)Cl", "Cn1cccc1", "CCn1cncn1", "COc1ccc(cc1)C(=O)NC", "CCOC(=O)CC(=O)OCC", "BrCCOC", "CCOB(O)O", "C[Si](C)(C)OC"]
 
 
 def heavy(m):
@@ -49,6 +50,7 @@ def fragments(m, a, b):
 
 
 SRC = {}
+REPEAT = []
 UPSTREAM = {"mislabelled": 0, "examples": []}
 DONE = {"two": 0, "one": 0}
 
@@ -195,8 +197,105 @@ def judge(smiles, a, b):
     return out
 
 
+def direct_fragments(m, a, b):
+    """the two fragments of a cut written directly (independent of the upstream fragment analysis): the open valence of each cut atom
+    is saturated with one explicit hydrogen; returns [(fragment SMILES, boundary index in it, index of the lost neighbour in the source)]"""
+    from rdkit import Chem
+    hs = {i: m.GetAtomWithIdx(i).GetTotalNumHs() for i in (a, b)}
+    rw = Chem.RWMol(m)
+    rw.RemoveBond(a, b)
+    for i in (a, b):
+        at = rw.GetAtomWithIdx(i)
+        at.SetNumExplicitHs(hs[i] + 1)
+        at.SetNoImplicit(True)
+    Chem.SanitizeMol(rw)
+    maps = []
+    frags = Chem.GetMolFrags(rw, asMols=True, fragsMolAtomMapping=maps)
+    out = []
+    for fm, fmap in zip(frags, maps):
+        fmap = list(fmap)
+        own, other = (a, b) if a in fmap else (b, a)
+        smi = Chem.MolToSmiles(fm)
+        order = list(fm.GetPropsAsDict(True, True)["_smilesAtomOutputOrder"])
+        out.append((smi, order.index(fmap.index(own)), other))
+    return out
+
+
+def judge_direct(smiles, a, b):
+    """the same claims on directly written fragments: two-fragment merge, then each single-fragment completion, in that order"""
+    from rdkit import Chem
+    from synrbl.SynMCSImputer.merge import merge
+    from synrbl.SynMCSImputer.rules import ExpandRule
+    from synrbl.SynMCSImputer.structure import CompoundSet
+    m = chem.mol(smiles)
+    out = []
+    try:
+        frags = direct_fragments(m, a, b)
+    except Exception:
+        return out
+    if len(frags) != 2:
+        return out
+
+    def cset_of(fs):
+        cs = CompoundSet()
+        for s_, bi, ni in fs:
+            cs.add_compound(s_, src_mol=smiles).add_boundary(bi, neighbor_index=ni)
+        return cs
+    try:
+        merged = merge(cset_of(frags))
+        DONE["direct"] = DONE.get("direct", 0) + 1
+        rules = [r.name for r in merged.rules]
+        got = flat(merged.smiles)
+        mm = chem.mol(merged.smiles)
+        if got is None:
+            out.append(("direct", "cut %d-%d of %r: merged product %r is not a valid molecule (rules %r)" % (a, b, smiles, merged.smiles, rules)))
+        elif len(merged.boundaries) != 0:
+            out.append(("direct", "cut %d-%d of %r: merged product still has an open attachment point" % (a, b, smiles)))
+        elif heavy(mm) != heavy(m) or ncarbon(mm) != ncarbon(m):
+            out.append(("direct", "cut %d-%d of %r: merge gives %r with different atoms (rules %r)" % (a, b, smiles, merged.smiles, rules)))
+        elif got != flat(smiles) and not any("restriction" in r for r in rules):
+            out.append(("direct", "cut %d-%d of %r: merge gives %r instead of the original molecule (rules %r)" % (a, b, smiles, merged.smiles, rules)))
+        elif any("restriction" in r for r in rules) and got != flat(frags[0][0] + "." + frags[1][0]):
+            out.append(("direct", "cut %d-%d of %r: restricted merge %r does not return the two fragments" % (a, b, smiles, merged.smiles)))
+    except (ValueError, NotImplementedError) as e:
+        if "No merge rule found" not in str(e) and "not supported" not in str(e):
+            out.append(("direct", "cut %d-%d of %r: merge raised %r" % (a, b, smiles, e)))
+    except Exception as e:
+        out.append(("direct", "cut %d-%d of %r: merge raised %s: %s" % (a, b, smiles, type(e).__name__, str(e)[:120])))
+    for f in frags:
+        try:
+            merged = merge(cset_of([f]))
+            rules = [r.name for r in merged.rules]
+            mm = chem.mol(merged.smiles)
+            part = chem.mol(f[0])
+            if mm is None:
+                out.append(("direct", "completing %r (cut %d-%d of %r) gives the invalid %r" % (f[0], a, b, smiles, merged.smiles)))
+                continue
+            exp = [r for r in ExpandRule.get_all() if r.name in rules]
+            add_heavy = sum(heavy(chem.mol(r.compound["smiles"])) for r in exp)
+            if len(merged.boundaries) != 0:
+                out.append(("direct", "completed product of %r still has an open attachment point" % (f[0],)))
+            elif heavy(mm) != heavy(part) + add_heavy or ncarbon(mm) != ncarbon(part) + sum(ncarbon(chem.mol(r.compound["smiles"])) for r in exp):
+                out.append(("direct", "completing %r (cut %d-%d of %r) gives %r: atoms not explained by the reported rules %r" % (f[0], a, b, smiles, merged.smiles, rules)))
+            elif not exp and flat(merged.smiles) != flat(f[0]):
+                out.append(("direct", "completing %r (cut %d-%d of %r) without an expansion rule gives %r instead of the fragment" % (f[0], a, b, smiles, merged.smiles)))
+        except (ValueError, NotImplementedError) as e:
+            if "No merge rule found" in str(e) or "not supported" in str(e):
+                continue
+            out.append(("direct", "cut %d-%d of %r: completion of %r raised %r" % (a, b, smiles, f[0], e)))
+        except Exception as e:
+            out.append(("direct", "cut %d-%d of %r: completion of %r raised %s: %s" % (a, b, smiles, f[0], type(e).__name__, str(e)[:120])))
+    return out
+
+
 def replay(d):
     inp = d["input"]
+    if inp.get("kind") == "cut-direct":
+        # state between merges matters: replay the whole recorded prefix
+        bad = False
+        for s_, a, b in inp.get("history", []) + [(inp["smiles"], inp["a"], inp["b"])]:
+            bad = bool(judge_direct(s_, a, b))
+        return bad
     return bool(judge(inp["smiles"], inp["a"], inp["b"]))
 
 
@@ -222,12 +321,37 @@ def check(run):
         if run.tier == "quick" and len(bonds) > 4:
             bonds = rnd.sample(bonds, 4)
         for a, b in bonds:
+            if s0 in SEED_MOLS:
+                REPEAT.append((s, a, b))
             pairs += 1
             cases += 3
             for mode, msg in judge(s, a, b):
                 fails.append(({"kind": "cut", "smiles": s, "a": a, "b": b}, msg))
             if len(samples) < 2:
                 samples.append({"molecule": s, "cut": [a, b]})
+    # the same claims on fragments written directly (explicit hydrogen on the cut atoms), every cut of the hand-picked molecules, two passes
+    dfails, dcases, history = [], 0, []
+    for rnd_pass in (1, 2):
+        for s0, a, b in REPEAT:
+            dcases += 3
+            for mode, msg in judge_direct(s0, a, b):
+                dfails.append(({"kind": "cut-direct", "smiles": s0, "a": a, "b": b, "history": list(history[-40:])}, ("second pass: " if rnd_pass == 2 else "") + msg))
+            history.append((s0, a, b))
+    run.bounded("cut-and-merge-direct", "%d (molecule, bond) pairs of the hand-picked molecules as directly written fragments, judged twice in one process"
+                % len(REPEAT), dcases, len(REPEAT), dfails[:8], False)
+    # the merge layer must not keep state between merges: the same (molecule, bond) pairs judged again at the end of the run, after all
+    # the other merges of this process, must give the same verdicts
+    first = {}
+    for inp, msg in fails:
+        first.setdefault((inp["smiles"], inp["a"], inp["b"]), []).append(msg)
+    repeat_fails = []
+    for s0, a, b in REPEAT[:60]:
+        got = [m for _, m in judge(s0, a, b)]
+        if sorted(got) != sorted(first.get((s0, a, b), [])):
+            repeat_fails.append(({"kind": "cut", "smiles": s0, "a": a, "b": b},
+                                 "cut %d-%d of %r judged again after the other merges of the run: %r (first time: %r)" % (a, b, s0, got, first.get((s0, a, b), []))))
+    fails = fails + repeat_fails
+    cases += 3 * len(REPEAT[:60])
     run.bounded("cut-and-merge", "%d molecules, %d (molecule, acyclic single bond) pairs, two-fragment merge and both single-fragment completions"
                 % (len(mols), pairs), cases, pairs, fails[:8], False, samples)
     run.notes.append("merges actually performed: %d two-fragment, %d single-fragment (ambiguous cuts and failed fragment analyses are skipped)" % (DONE["two"], DONE["one"]))
